@@ -674,6 +674,64 @@ def oracle_keepalive(case):
                 sample={"names": case["names"], "steps": [(s_["how"], s_["name"]) for s_ in case["steps"]], "server": h.label})
 
 
+def huge_cases(tier):
+    """Arguments and results beyond the largest block the server reads at once (10 MiB), over a real socket"""
+    yield {"server": 0, "where": "argument", "mib": 10, "extra": 1500, "version": 2.0}
+    yield {"server": 3, "where": "result", "mib": 10, "extra": 70000, "version": 1.0}
+    if tier == "thorough":
+        yield {"server": 2, "where": "argument", "mib": 20, "extra": 3, "version": 2.0}
+        yield {"server": 1, "where": "argument", "mib": 10, "extra": 1, "version": 1.0}
+
+
+def oracle_huge(case):
+    from jsonrpclib import jsonrpc as J
+    from jsonrpclib.config import Config
+
+    h = _farm[0].get(case["server"])
+    srv = h.server
+    srv.json_config = Config(version=2.0)
+    h.take_exchanges()
+    big = ("é" * 1024 + "x" * 1023) * (case["mib"] * 512) + "€" * case["extra"]
+    log = []
+
+    def swallow(x, tag):
+        log.append((len(x), x[:8], x[-8:], tag))
+        return len(x)
+
+    def produce(n):
+        log.append(n)
+        return big
+    srv.register_function(swallow, "swallow")
+    srv.register_function(produce, "produce")
+    proxy = J.ServerProxy(h.url, config=Config(version=case["version"]), version=case["version"])
+    import socket
+    before_timeout = socket.getdefaulttimeout()
+    socket.setdefaulttimeout(25)      # a peer that stops reading must not block this client for ever
+    try:
+        if case["where"] == "argument":
+            got = proxy.swallow(big, "t")
+            if log != [(len(big), big[:8], big[-8:], "t")] or got != len(big):
+                fail("C01/arguments", "an argument of %d characters (%d bytes) arrived as %r, the call returned %r" % (len(big), len(big.encode("utf-8")), log, got))
+        else:
+            got = proxy.produce(7)
+            if log != [7] or got != big:
+                fail("C01/result", "a result of %d characters came back with %s characters (callable invoked %r)" % (len(big), len(got) if isinstance(got, str) else repr(got)[:60], log))
+    except Violation:
+        raise
+    except Exception as ex:
+        fail("C01/call-raised:%s" % type(ex).__name__, "a call with a %s of %d bytes raised %s: %s" % (case["where"], len(big.encode("utf-8")), type(ex).__name__, str(ex)[:200]))
+    finally:
+        socket.setdefaulttimeout(before_timeout)
+        srv.funcs.pop("swallow", None)
+        srv.funcs.pop("produce", None)
+        h.take_exchanges()
+        try:
+            proxy("close")()
+        except Exception:
+            pass
+    return Info(nt=True, classes=["huge-" + case["where"], "transport:" + h.label], sample={"bytes": len(big.encode("utf-8")), "where": case["where"], "server": h.label})
+
+
 SUBS = [
     Sub("loopback", oracle_loopback, strategy=lambda tier: cases(False),
         budget={"quick": 8000, "thorough": 150000}, shards={"quick": 12, "thorough": 16},
@@ -685,6 +743,9 @@ SUBS = [
     Sub("reuse", oracle_reuse, strategy=lambda tier: reuse_cases(),
         budget={"quick": 2500, "thorough": 40000}, shards={"quick": 4, "thorough": 8},
         what="sequences of calls on one proxy through objects the caller keeps (namespace, bound method, _notify accessor, MultiCall), History accumulating"),
+    Sub("huge", oracle_huge, enumerate=huge_cases, setup=farm_setup, teardown=farm_teardown, shards={"quick": 2, "thorough": 4},
+        time_cap={"quick": 100, "thorough": 1500},
+        what="an argument and a result beyond 10 MiB (the server's largest single read) over real sockets"),
     Sub("sockets-keepalive", oracle_keepalive, strategy=lambda tier: keepalive_cases(), setup=farm_setup, teardown=farm_teardown,
         budget={"quick": 600, "thorough": 10000}, shards={"quick": 4, "thorough": 8},
         time_cap={"quick": 100, "thorough": 1500},
